@@ -190,3 +190,20 @@ Proof.
   intros g R ord rho tmin tmax full fuel out Hnd H. unfold basic_discrete_SIS_R in H.
   exact (with_initial_rho g rho _ out Hnd H).
 Qed.
+
+(* the same for any [drun] of kind SIR (used for percolation_based_discrete_SIR) *)
+Lemma drun_init_accepted : forall g os tmin tmax full i0 r0 tl0 K t st rows hl tl,
+  wf_inputb g i0 r0 = true -> whole_steps tmin tmax ->
+  drun g kSIR os tmin tmax full (init_status i0 r0) tl0 K t st rows hl tl ->
+  dinit_okb true g i0 r0 tmin (rev rows) (if full then Some (build_hist g tmin i0 r0 hl) else None) = true.
+Proof.
+  intros g os tmin tmax full i0 r0 tl0 K t st rows hl tl Hwf Hw Hrun.
+  destruct (drun_first _ _ _ _ _ _ _ _ _ _ _ _ _ _ Hrun) as [rest E].
+  unfold dinit_okb. rewrite E, (init_status_counts g i0 r0 Hwf). cbn [fst snd]. rewrite zeqb_list_refl, andb_true_r.
+  assert (Eq : Qeqb tmin tmin = true) by (apply Qeq_bool_iff; reflexivity). rewrite Eq. cbn [andb].
+  destruct full; [|reflexivity]. apply forallb_forall. intros u Hu. unfold build_hist. cbv zeta.
+  erewrite assocN_map by exact Hu. cbn [fst snd]. rewrite Eq, N.eqb_refl. cbn [andb].
+  destruct (mem u r0) eqn:Er0; [|reflexivity].
+  destruct (drun_r0_quiet _ _ _ _ _ _ _ _ _ _ _ _ Hw Hrun u Hu) as [_ HQ]; [unfold init_status; rewrite Er0; reflexivity|].
+  match goal with |- match ?x with _ => _ end = _ => replace x with (@nil (Q * N)) by (symmetry; exact HQ) end. reflexivity.
+Qed.
